@@ -278,44 +278,58 @@ def rand_gid(r, hi=NG):
     return r.below(hi)
 
 
-def rand_classes(r, ncls):
+def rand_classes(r, ncls, wf=False):
     d = {}
     for g in range(NG):
         if r.chance(3, 4):
             k = r.below(10)
-            if k == 0: d[g] = r.below(4)
+            if wf: d[g] = 4 + r.below(ncls - 4) if ncls > 4 else 1
+            elif k == 0: d[g] = r.below(4)
             elif k == 1: d[g] = ncls + r.below(2)
             else: d[g] = 4 + r.below(max(1, ncls - 4)) if ncls > 4 else r.below(4)
     return d
 
 
-def rand_machine(r, kind, extra):
-    ncls = r.range(4, 7)
+def rand_machine(r, kind, extra, wf=False):
+    ncls = r.range(5, 7) if wf else r.range(4, 7)
     nstates = r.range(2, 5)
     nent = r.range(1, 8)
-    entries = [rand_entry(r, kind, nstates, extra) for _ in range(nent)]
-    states = [[(r.below(nent) if not r.chance(1, 40) else nent + r.below(3)) for _ in range(ncls)]
+    entries = [rand_entry(r, kind, nstates, extra, wf) for _ in range(nent)]
+    # entry indices past the real entries read whatever follows (faithfully passed to the model as a view);
+    # not for contextual tables: a garbage entry would name a lookup offset that parses garbage bytes
+    states = [[(r.below(nent) if wf or kind == 1 or not r.chance(1, 40) else nent + r.below(3)) for _ in range(ncls)]
               for _ in range(nstates)]
-    return {"nclasses": ncls if not r.chance(1, 30) else r.choice([0, 1, 2, 3]),
-            "classes": rand_classes(r, ncls), "states": states, "entries": entries}
+    return {"nclasses": ncls if wf or not r.chance(1, 30) else r.choice([0, 1, 2, 3]),
+            "classes": rand_classes(r, ncls, wf), "states": states, "entries": entries}
 
 
-def rand_entry(r, kind, nstates, extra):
-    ns = r.below(nstates) if not r.chance(1, 30) else nstates + r.below(2)
+def rand_entry(r, kind, nstates, extra, wf=False):
+    ns = r.below(nstates) if wf or not r.chance(1, 30) else nstates + r.below(2)
     if kind == 0:
         fl = (0x8000 if r.chance(1, 3) else 0) | (0x4000 if r.chance(1, 6) else 0) | (0x2000 if r.chance(1, 3) else 0)
         fl |= r.below(16) if r.chance(2, 3) else 0
         return (ns, fl, 0, 0)
     if kind == 1:
         n = extra["nlookups"]
-        pick = lambda: 0xFFFF if r.chance(1, 2) or n == 0 else (r.below(n) if not r.chance(1, 40) else 0xFFF0)
+        pick = lambda: 0xFFFF if r.chance(1, 2) or n == 0 else (r.below(n) if wf or not r.chance(1, 40) else 0xFFF0)
         fl = (0x8000 if r.chance(1, 3) else 0) | (0x4000 if r.chance(1, 6) else 0)
         return (ns, fl, pick(), pick())
     if kind == 2:
         fl = (0x8000 if r.chance(1, 2) else 0) | (0x4000 if r.chance(1, 8) else 0) | (0x2000 if r.chance(1, 3) else 0)
+        if wf:
+            return (ns, fl, r.choice(extra["action_starts"]), 0)
         return (ns, fl, r.below(max(1, extra["nactions"])) if not r.chance(1, 30) else r.below(200), 0)
     if kind == 5:
         n = extra["nglyphs"]
+        if wf:
+            cc, mc = r.below(4), r.below(4)
+            ci = 0xFFFF if r.chance(1, 2) else r.below(n - cc + 1)
+            mi = 0xFFFF if r.chance(1, 2) else r.below(n - mc + 1)
+            fl = (0x8000 if r.chance(1, 3) else 0) | (0x4000 if r.chance(1, 6) else 0)
+            fl |= (0x0800 if r.chance(1, 2) else 0) | (0x0400 if r.chance(1, 2) else 0) | (cc << 5) | mc
+            if wf != "setmark-quirk" and mi != 0xFFFF and mc > 0:
+                fl &= ~0x8000      # SET_MARK together with a marked insertion: see finding F3 (mark_loc)
+            return (ns, fl, ci, mi)
         pick = lambda: 0xFFFF if r.chance(1, 2) else (r.below(max(1, n)) if not r.chance(1, 30) else r.below(300))
         fl = (0x8000 if r.chance(1, 3) else 0) | (0x4000 if r.chance(1, 6) else 0)
         fl |= (0x0800 if r.chance(1, 2) else 0) | (0x0400 if r.chance(1, 2) else 0)
@@ -325,11 +339,19 @@ def rand_entry(r, kind, nstates, extra):
     raise ValueError(kind)
 
 
-def rand_subst(r):
+def rand_subst(r, wf=False):
+    if wf:
+        return {g: r.below(NG) for g in r.sample(list(range(NG)), r.range(1, 6))}
     return {g: rand_gid(r, NG) if not r.chance(1, 10) else r.below(65535) for g in r.sample(list(range(NG)), r.range(0, 6))}
 
 
-def rand_subtable(r, kinds=(0, 1, 2, 4, 5)):
+def identity_lookup(r, subst):
+    seen = {g: g for g in range(NG)}
+    seen.update(subst)
+    return (U16(0) + b"".join(U16(seen[g]) for g in range(NG)), seen)
+
+
+def rand_subtable(r, kinds=(0, 1, 2, 4, 5), wf=False):
     kind = r.choice(kinds)
     cov = 0
     if r.chance(1, 3): cov |= 0x40
@@ -338,40 +360,70 @@ def rand_subtable(r, kinds=(0, 1, 2, 4, 5)):
     if r.chance(1, 2): cov |= 0x20
     st = {"kind": kind, "coverage": cov, "flags": r.choice([1, 1, 1, 2, 3, 4, 0, 0xFFFFFFFF])}
     if kind == 4:
+        if wf:
+            st["lookup"] = identity_lookup(r, rand_subst(r, True)) if r.chance(1, 2) else \
+                make_lookup(r, rand_subst(r, True), NG, 0) if False else identity_lookup(r, rand_subst(r, True))
+            return st
         st["lookup"] = make_lookup(r, rand_subst(r), NG, r.choice([0xFFFF, 0, 5]))
         if r.chance(1, 2):   # format 0 with an identity filler is the usual shape of real fonts
-            seen = {g: g for g in range(NG)}
-            seen.update({g: v for g, v in rand_subst(r).items()})
-            st["lookup"] = (U16(0) + b"".join(U16(seen[g]) for g in range(NG)), seen)
+            st["lookup"] = identity_lookup(r, rand_subst(r))
         return st
     extra = {}
     arrays = {}
     if kind == 1:
-        n = r.range(0, 3)
-        arrays["lookups"] = [make_lookup(r, rand_subst(r) or {1: 2}, NG, 0xFFFF) for _ in range(n)]
+        n = r.range(1, 3) if wf else r.range(0, 3)
+        if wf:
+            # sparse formats (2, 6) so that uncovered glyphs stay; format 0/8 with identity filler
+            arrays["lookups"] = []
+            for _ in range(n):
+                sub = rand_subst(r, True)
+                if r.chance(1, 2):
+                    arrays["lookups"].append(identity_lookup(r, sub))
+                else:
+                    arrays["lookups"].append(build_lookup(sub, r.choice([2, 6]), NG, term=r.chance(1, 2)))
+        else:
+            arrays["lookups"] = [make_lookup(r, rand_subst(r) or {1: 2}, NG, 0xFFFF) for _ in range(n)]
         # a filler of 0xFFFF in format 0/8 means "replace by the deleted glyph": fine, it is what the table says
         extra["nlookups"] = n
     elif kind == 2:
-        na = r.range(1, 6)
-        acts = []
-        for _ in range(na):
-            off = r.below(6) if r.chance(3, 4) else (0x3FFFFFFF - r.below(12))   # small +/- offsets
-            a = off | (0x80000000 if r.chance(1, 3) else 0) | (0x40000000 if r.chance(1, 3) else 0)
-            acts.append(a)
-        arrays["actions"] = acts
-        arrays["components"] = [r.below(4) for _ in range(r.range(4, 16))]
-        arrays["ligatures"] = [rand_gid(r) for _ in range(r.range(1, 6))]
-        extra["nactions"] = na
+        if wf:
+            # action lists: 1-3 actions, the last one has LAST; offsets 0..7 into a component table that
+            # covers every glyph id + offset; component values 0/1; enough ligatures for every sum
+            acts, starts = [], []
+            for _ in range(r.range(1, 3)):
+                starts.append(len(acts))
+                k = r.range(1, 3)
+                for j in range(k):
+                    a = r.below(8)
+                    if j == k - 1: a |= 0x80000000
+                    elif r.chance(1, 3): a |= 0x40000000
+                    acts.append(a)
+            arrays["actions"] = acts
+            arrays["components"] = [r.below(2) for _ in range(NG + 8)]
+            arrays["ligatures"] = [r.below(NG) if not r.chance(1, 8) else 0xFFFF for _ in range(14)]
+            extra["nactions"] = len(acts)
+            extra["action_starts"] = starts
+        else:
+            na = r.range(1, 6)
+            acts = []
+            for _ in range(na):
+                off = r.below(6) if r.chance(3, 4) else (0x3FFFFFFF - r.below(12))   # small +/- offsets
+                a = off | (0x80000000 if r.chance(1, 3) else 0) | (0x40000000 if r.chance(1, 3) else 0)
+                acts.append(a)
+            arrays["actions"] = acts
+            arrays["components"] = [r.below(4) for _ in range(r.range(4, 16))]
+            arrays["ligatures"] = [rand_gid(r) for _ in range(r.range(1, 6))]
+            extra["nactions"] = na
     elif kind == 5:
-        ng = r.range(1, 8)
-        arrays["glyphs"] = [rand_gid(r) for _ in range(ng)]
+        ng = r.range(4, 8) if wf else r.range(1, 8)
+        arrays["glyphs"] = [r.below(NG) for _ in range(ng)] if wf else [rand_gid(r) for _ in range(ng)]
         extra["nglyphs"] = ng
-    mach = rand_machine(r, kind, extra)
+    mach = rand_machine(r, kind, extra, wf)
     st["built"] = build_stx(r, kind, mach, NG, arrays)
     return st
 
 
-def rand_chains(r, nchains=None, kinds=(0, 1, 2, 4, 5), max_sub=3):
+def rand_chains(r, nchains=None, kinds=(0, 1, 2, 4, 5), max_sub=3, wf=False):
     chains = []
     for _ in range(nchains or r.choice([1, 1, 1, 2])):
         feats = []
@@ -379,7 +431,7 @@ def rand_chains(r, nchains=None, kinds=(0, 1, 2, 4, 5), max_sub=3):
             feats.append((r.choice([1, 3, 37, 17, 35, 14]), r.below(6), r.choice([0, 1, 2, 4, 6]),
                           r.choice([0xFFFFFFFF, 0xFFFFFFFE, 0xFFFFFFF9, 0])))
         chains.append({"default": r.choice([1, 1, 3, 0, 7, 0xFFFFFFFF]), "features": feats,
-                       "subtables": [rand_subtable(r, kinds) for _ in range(r.range(1, max_sub))]})
+                       "subtables": [rand_subtable(r, kinds, wf) for _ in range(r.range(1, max_sub))]})
     return chains
 
 
@@ -424,8 +476,8 @@ def rand_glyph_string(r, maxlen=10):
     return ",".join(f"{g}:{c}" for g, c in zip(gids, cl)) or "-"
 
 
-def font_case(r, kinds=(0, 1, 2, 4, 5), with_feat=False, nchains=None, max_sub=3):
-    chains = rand_chains(r, nchains, kinds, max_sub)
+def font_case(r, kinds=(0, 1, 2, 4, 5), with_feat=False, nchains=None, max_sub=3, wf=False):
+    chains = rand_chains(r, nchains, kinds, max_sub, wf)
     morx, tok = build_morx(r, chains, NG)
     feat_rows = rand_feat_table(r) if with_feat else None
     font = build_font(NG, morx, build_feat(feat_rows) if feat_rows is not None else None)
@@ -438,18 +490,41 @@ def font_case(r, kinds=(0, 1, 2, 4, 5), with_feat=False, nchains=None, max_sub=3
 
 
 def run_lines(r, n, kinds=(0, 1, 2, 4, 5), per_font=6, with_feat=False, small_ops=True):
+    """`morx run` requests. Fonts with an insertion subtable always get an explicit small max_ops: with the
+    default budget (>= 16384) some tables need minutes (finding F2: cubic work), which would stall a stream."""
     lines = []
     while len(lines) < n:
         hexf, rec, chains = font_case(r, kinds, with_feat)
+        has_ins = any(st["kind"] == 5 for ch in chains for st in ch["subtables"])
         for _ in range(per_font):
             d = r.choice(["l", "l", "r", "t", "b"])
             level = r.choice([0, 0, 1, 2])
-            mo = "-" if not small_ops or r.chance(2, 3) else str(r.choice([0, 1, 2, 3, 5, 8, 13, 40, -3]))
+            if has_ins:
+                mo = str(r.choice([0, 1, 2, 3, 5, 8, 13, 40, 100, 300, -3]))
+            else:
+                mo = "-" if not small_ops or r.chance(2, 3) else str(r.choice([0, 1, 2, 3, 5, 8, 13, 40, -3]))
             ml = "-" if r.chance(9, 10) else str(r.choice([0, 3, 8, 12, 20]))
             gs = rand_glyph_string(r)
             fs = rand_user_feats(r, 10) if with_feat else "-"
             lines.append(f"morx run {hexf} R {rec} I {d} {level} {mo} {ml} {fs} {gs}")
     return lines[:n]
+
+
+def compile_lines(r, n):
+    lines = []
+    while len(lines) < n:
+        hexf, rec, chains = font_case(r, (4,), True, max_sub=1)
+        for _ in range(8):
+            lines.append(f"morx compile {hexf} R {rec} I {rand_user_feats(r, 10)}")
+    return lines[:n]
+
+
+def classify_compile(ln, out):
+    if not out.startswith("ok"):
+        return [out[:16]]
+    o = out.split()
+    return ["added:%d" % (0 if o[2] == "-" else len(o[2].split(","))),
+            "ranges:%d" % max(len(c.split(",")) for c in o[4].split(";"))]
 
 
 def canon(s):
@@ -528,26 +603,276 @@ def classify_rearr(ln, out):
     return ks
 
 
+PANIC_AT = re.compile(r"(\w+\.rs):(\d+)")
+
+
+def panic_site(out):
+    m = PANIC_AT.search(out)
+    return f"{m.group(1)}:{m.group(2)}" if m else out[:40]
+
+
+def gids_of(field):
+    return [] if field == "-" else [int(t.split(":")[0]) for t in field.split(",")]
+
+
+def spec_search(ctx, shim, model, r, nfonts):
+    """The crate (hook: hb_aat_layout_substitute) against the reference interpreter of Spec/Aat.lean on
+    well-formed tables (all indices in range), one subtable per font, glyph ids only."""
+    per_kind = {}
+    lines, slines, kinds = [], [], []
+    for it in range(nfonts):
+        kind = [0, 1, 2, 4, 5, 5, 2][it % 7]
+        hexf, rec, chains = font_case(r, (kind,), nchains=1, max_sub=1, wf=True)
+        for _ in range(6):
+            n = r.range(1, 8)
+            gs = ",".join(f"{r.below(NG)}:{i}" for i in range(n))
+            d = r.choice(["l", "l", "r", "t"])
+            mo = "-" if kind != 5 else str(r.choice([20, 60, 200]))
+            tail = f"{hexf} R {rec} I {d} 0 {mo} - - {gs}"
+            lines.append("morx run " + tail); slines.append("morx spec " + tail); kinds.append(kind)
+    a = vlib.run_lines(shim, lines, timeout=120)
+    b = vlib.run_lines(model, slines, timeout=120)
+    seen_sites = set()
+    total = nontriv = 0
+    dist = {}
+    for ln, x, y, kind in zip(lines, a, b, kinds):
+        kn = KIND_NAMES[kind]
+        total += 1
+        if y == "undef":
+            dist[kn + ":outside-domain"] = dist.get(kn + ":outside-domain", 0) + 1
+            continue
+        t = ln.split(); i = t.index("I")
+        if not x.startswith("ok"):
+            site = panic_site(x)
+            dist[kn + ":crate-panic"] = dist.get(kn + ":crate-panic", 0) + 1
+            if (kn, site) not in seen_sites:
+                seen_sites.add((kn, site))
+                ctx.violation(f"{kn} subtable on a well-formed table: crate panics at {site} where the AAT reference "
+                              f"interpreter gives {y}", {"stage": "search", "stream": "morx-spec", "kind": kn,
+                              "panic_at": site, "request": ln, "input": t[i + 1:], "expected": y, "observed": x})
+            continue
+        nontriv += 1
+        got = gids_of(x.split()[3])
+        exp = gids_of(y.split()[1])
+        if got != gids_of(t[i + 6]):
+            dist[kn + ":changed"] = dist.get(kn + ":changed", 0) + 1
+        if got != exp:
+            dist[kn + ":differs"] = dist.get(kn + ":differs", 0) + 1
+            if (kn, "differs") not in seen_sites:
+                seen_sites.add((kn, "differs"))
+                ctx.violation(f"{kn} subtable: glyphs differ from the AAT reference interpreter",
+                              {"stage": "search", "stream": "morx-spec", "kind": kn, "request": ln,
+                               "input": t[i + 1:], "expected": exp, "observed": got})
+        else:
+            dist[kn + ":agree"] = dist.get(kn + ":agree", 0) + 1
+    ctx.note_search("morx-spec", total, nontriv, distribution=dist,
+                    rule="well-formed single-subtable fonts x glyph strings <= 8 x 3 directions; crate through the "
+                         "substitute hook vs Spec/Aat reference interpreter; non-trivial = inside the reference's domain "
+                         "and no crash")
+
+
+CORPUS_SEEDS = ["lLAvA", "XXAYYAZZ", "ABCDE", "aeiou"]
+ALPHA = "abcdefghijklmnopqrstuvwxyzABCDEFGHIJKLMNOPQRSTUVWXYZ0123456789 .,-'"
+
+
+def corpus_fonts():
+    import glob
+    return sorted(glob.glob(os.path.join(vlib.REPO, "tests", "fonts", "*", "*MORX*.ttf")))
+
+
+def text_req(text):
+    return "shape f - - - 0 0 - - - " + ",".join(f"{ord(c):x}:{i}" for i, c in enumerate(text))
+
+
+def corpus_search(ctx, shim, r, per_font):
+    """The repository's own morx fonts x random short ASCII strings through shape(): no panic, no timeout,
+    glyph count within the buffer's own limit."""
+    groups, meta = [], []
+    for f in corpus_fonts():
+        texts = list(CORPUS_SEEDS)
+        for _ in range(per_font):
+            n = r.range(1, 8)
+            k = r.below(3)
+            if k == 0: t = "".join(r.choice(ALPHA) for _ in range(n))
+            elif k == 1:
+                a = [r.choice(ALPHA) for _ in range(3)]; t = "".join(r.choice(a) for _ in range(n))
+            else: t = "".join(r.choice("AaLlvVXxYyZzBbMmHh") for _ in range(n))
+            texts.append(t)
+        groups.append([f"fontfile f {f}"] + [text_req(t) for t in texts]); meta.append((f, texts))
+    outs = vlib.run_groups(shim, groups, timeout=300)
+    total = nontriv = 0
+    worst = {}
+    for (f, texts), o in zip(meta, outs):
+        base = os.path.basename(f)
+        for t, x in zip(texts, o[1:]):
+            total += 1
+            if x.startswith("ok"):
+                n = int(x.split()[1])
+                if n != len(t): nontriv += 1
+                if n > max(64 * len(t), 16384):
+                    ctx.violation(f"{base}: {n} glyphs for {len(t)} characters", {"stage": "search",
+                                  "stream": "morx-corpus", "font": base, "text": t, "glyphs": n})
+            else:
+                site = panic_site(x) if x.startswith("panic") else x[:20]
+                key = (base, site)
+                if key not in worst or len(t) < len(worst[key][0]) or (t == "lLAvA"):
+                    if key in worst and worst[key][0] == "lLAvA": continue
+                    worst[key] = (t, x)
+    for (base, site), (t, x) in sorted(worst.items()):
+        ctx.violation(f"{base} + {t!r}: shape() {'panics at ' + site if x.startswith('panic') else x}",
+                      {"stage": "search", "stream": "morx-corpus", "font": base, "text": t,
+                       "panic_at": site, "observed": x[:200]})
+    ctx.note_search("morx-corpus", total, nontriv, fonts=len(meta),
+                    rule="every *MORX*.ttf of tests/fonts x (4 fixed + random) ASCII strings <= 8 chars through "
+                         "shape(); non-trivial = the glyph count differs from the character count")
+
+
+def shape_vs_hook(ctx, shim, r, nfonts):
+    """public shape() against the substitute hook on generated fonts (ties the hook to the public path):
+    glyph ids after shape() = glyph ids of the hook result without the deleted glyph 0xFFFF."""
+    lines, hooks = [], []
+    for _ in range(nfonts):
+        hexf, rec, chains = font_case(r, (0, 1, 2, 4), nchains=1, max_sub=2, wf=True)
+        for _ in range(4):
+            n = r.range(1, 8)
+            gl = [r.range(1, NG - 1) for _ in range(n)]
+            d = r.choice(["l", "r"])
+            text = ",".join(f"{0xE000 + g - 1:x}:{i}" for i, g in enumerate(gl))
+            cl = list(range(n))
+            gs = ",".join(f"{g}:{c}" for g, c in zip(gl, cl))
+            lines.append(f"morx shape {hexf} R 0 I {d} 0 - {text}")
+            hooks.append(f"morx run {hexf} R 0 I {d} 0 - - - {gs}")
+    a = vlib.run_lines(shim, lines, timeout=120)
+    b = vlib.run_lines(shim, hooks, timeout=120)
+    total = nontriv = bad = 0
+    for ln, hk, x, y in zip(lines, hooks, a, b):
+        total += 1
+        if not (x.startswith("ok") and y.startswith("ok")):
+            if x.split()[:1] != y.split()[:1]:
+                bad += 1
+                if bad <= 1:
+                    ctx.violation("shape() and the substitute hook disagree on crashing", {"stage": "search",
+                                  "stream": "morx-shape-vs-hook", "request": ln, "shape": x[:200], "hook": y[:200]})
+            continue
+        gx = gids_of(x.split()[1])
+        gy = [g for g in gids_of(y.split()[3]) if g != 0xFFFF]
+        rtl = " I r " in ln
+        if rtl: gx = gx[::-1]       # shape() returns visual order for right-to-left text
+        if gy != [int(t.split(":")[0]) for t in hk.split()[-1].split(",")]: nontriv += 1
+        if gx != gy:
+            bad += 1
+            if bad <= 1:
+                ctx.violation("shape() differs from hb_aat_layout_substitute on the same glyphs", {"stage": "search",
+                              "stream": "morx-shape-vs-hook", "request": ln, "shape": gx, "hook": gy})
+    ctx.note_search("morx-shape-vs-hook", total, nontriv,
+                    rule="generated fonts (cmap U+E000+i -> glyph i+1) x strings <= 8, LTR/RTL: glyph ids of shape() "
+                         "== hook result minus deleted glyphs; non-trivial = the subtables changed the string")
+
+
+def d17_probe(ctx, shim):
+    """D17 through the public API: a non-contextual subtable switched on by `smcp` for clusters [2,4) only."""
+    r = vlib.Rng(0, "d17")
+    seen = {g: g for g in range(NG)}
+    seen.update({g: g + 1 for g in range(1, 8)})
+    lk = (U16(0) + b"".join(U16(seen[g]) for g in range(NG)), seen)
+    chains = [{"default": 0, "features": [(37, 1, 1, 0xFFFFFFFF)],
+               "subtables": [{"kind": 4, "coverage": 0x20, "flags": 1, "lookup": lk}]}]
+    morx, tok = build_morx(r, chains, NG)
+    font = build_font(NG, morx, build_feat([(37, 2, False)]))
+    gl = [1, 2, 3, 4, 5]
+    text = ",".join(f"{0xE000 + g - 1:x}:{i}" for i, g in enumerate(gl))
+    feat = f"{tag_hex('smcp')}:1:2:4"
+    ln = f"morx shape {font.hex()} R 0 I l 0 {feat} {text}"
+    out = vlib.run_lines(shim, [ln], nproc=1)[0]
+    want = [1, 2, 4, 5, 5]        # only the glyphs of clusters 2 and 3 go through the lookup
+    got = gids_of(out.split()[1]) if out.startswith("ok") else out
+    ctx.cov.setdefault("probes", {})["D17"] = {"request_feature": "smcp[2:4]=1", "glyphs_in": gl, "expected": want,
+                                               "observed": got}
+    if got != want:
+        ctx.violation(f"non-contextual subtable ignores the feature range: smcp[2:4] on glyphs {gl} gives {got}, "
+                      f"expected {want} (D17)", {"stage": "search", "stream": "morx-d17", "request": ln,
+                      "feature": "smcp[2:4]=1", "expected": want, "observed": got})
+    ctx.note_search("morx-d17", 1, 1, rule="one fixed probe of the feature-range handling of the non-contextual subtable")
+
+
+# finding F2: a font (found by the morx-run generator, seed 5) whose single insertion subtable makes a 3-glyph
+# string cost work cubic in max_ops: an out-of-range marked-insert index makes InsertionCtx::transition return
+# (`glyphs.get(i)?`) right after move_to(mark)+copy_glyph, so the cursor stays rewound at the mark (=0) and one
+# glyph is duplicated; drive re-scans the whole buffer once per unit of max_ops, and every re-scanned glyph
+# runs a zero-count marked insertion (move_to(0) and back: O(n) for 0 ops). With the default budget of shape()
+# (max_ops = 16384) the 3 glyphs below did not finish in 15 minutes.
+SLOW_FONT_HEX = "000100000006004000020020636d6170000000000000006c000000346865616400000000000000a0000000366868656100000000000000d800000024686d747800000000000000fc000000306d617870000000000000012c000000066d6f72780000000000000134000000dc000000010003000a0000000c000c0000000000280000000000000002000000610000006b000000010000e0000000e00a000000010001000000010000000000005f0f3cf5000003e8000000000000000000000000000000000000000003e803e8000000080002000000000000000100000320ff38000003e80000000003e800010000000000000000000000000000000c01f4000001fe00000208000002120000021c00000226000002300000023a000002440000024e0000025800000262000000005000000c0000000200000000000100000001000000d40000000200000001000e000100000001000000000001000200000001fffffff9000000ac00000005000000010000000700000014000000680000002e0000005e0000000600010001000100050006000300020001000400040001000148610064ffff00010c620002ffff00000c430001000100020861ffff0056000200000003000200030043ffffffff000c00030008000300050005000100030000000200000000000200020000000100080000000300010004000300050005000100030001000000050005000300030000"
+SLOW_FONT_RECIPE = "12 0 1 1 2 14 1 1 0 1 2 1 4294967289 1 0 1 5 7 12 0 6 1 1 2 1 3 1 4 5 5 6 6 3 7 2 8 1 9 4 10 4 11 1 28 5 1 3 0 2 0 0 2 2 0 1 8 0 3 1 4 3 5 5 1 3 1 0 5 5 3 3 0 14 1 18529 100 65535 1 3170 2 65535 0 3139 1 1 2 2145 65535 86 2 0 3 2 3 67 65535 65535 12 3 8 3 5 5 1 3 0 2 0 0 2 2 0 1 8 0 3 1 4 3 5 5 1 3 1 0 5 5 3 3 33 12 3 8 3 5 5 1 3 0 2 0 0 2 2 0 1 8 0 3 1 4 3 5 5 1 3 1 0 5 5 3 3 0"
+SLOW_GLYPHS = "11:2,8:1,0:0"
+
+
+def slow_probe(ctx, shim, model):
+    import time
+    obs = []
+    for mo in ctx.budget((200, 400, 800), (400, 800, 1600, 3200)):
+        ln = f"morx run {SLOW_FONT_HEX} R {SLOW_FONT_RECIPE} I l 0 {mo} - - {SLOW_GLYPHS}"
+        t0 = time.time(); x = vlib.run_lines(shim, [ln], nproc=1, timeout=300)[0]; dt = time.time() - t0
+        y = vlib.run_lines(model, [ln], nproc=1, timeout=600)[0] if mo <= 800 else x
+        obs.append({"max_ops": mo, "seconds": round(dt, 3), "model_agrees": canon(x) == canon(y),
+                    "glyphs_out": len(gids_of(x.split()[3])) if x.startswith("ok") else x[:30]})
+    ctx.cov.setdefault("probes", {})["F2-insertion-rescan"] = {
+        "glyphs_in": SLOW_GLYPHS, "observations": obs,
+        "note": "time grows ~8x per doubling of max_ops (cubic); shape() uses max_ops >= 16384"}
+    if any(not o["model_agrees"] for o in obs):
+        ctx.violation("model and crate disagree on the F2 probe", {"stage": "search", "stream": "morx-f2", "observations": obs})
+
+
 def run(ctx):
     ctx.assumptions += [
         "theorems are about the Lean model RbModel/Morx.lean; it is tied to the crate by the correspondence "
         "streams below (hook level and whole morx tables through hb_aat_layout_substitute)",
         "glyph masks/flags and GDEF glyph props are not modelled (fonts without GDEF glyph classes)",
+        "the buffer of the model is Rust's representation (info / separate out vector / Vec lengths), so it "
+        "reproduces D5/D6/D19; the list view of it is only used by the reference interpreter of Spec/Aat",
     ]
     ctx.regen()
     ctx.prove(MODULE)
     shim = vlib.build_harness()
-    # 1. rearrangement, exhaustive
+    model = vlib.build_model()
+    # 1. rearrangement through the hook: all 16 verbs x all marked ranges of buffers <= 8 / 10 glyphs
     ctx.correspond("morx-rearr-exhaustive", lines=rearr_lines(ctx.budget(8, 10)), classify=classify_rearr, canon=canon)
     ctx.correspond("morx-rearr-random", lines=rearr_random(ctx.rng("rearr"), ctx.budget(4000, 100000)),
                    classify=classify_rearr, canon=canon)
-    # 2. whole tables
-    r = ctx.rng("run")
-    ctx.correspond("morx-run", lines=run_lines(r, ctx.budget(3000, 60000)), classify=classify_run, canon=canon)
+    # 2. whole tables through hb_aat_layout_substitute
+    ctx.correspond("morx-run", lines=run_lines(ctx.rng("run"), ctx.budget(3000, 80000)), classify=classify_run,
+                   canon=canon, timeout=300)
+    ctx.correspond("morx-run-feat", lines=run_lines(ctx.rng("runfeat"), ctx.budget(1200, 30000), kinds=(0, 1, 2, 4),
+                   with_feat=True), classify=classify_run, canon=canon, timeout=300)
+    # 3. chain-flag compilation (add_feature + compile + compile_flags)
+    ctx.correspond("morx-compile", lines=compile_lines(ctx.rng("compile"), ctx.budget(1500, 40000)),
+                   classify=classify_compile, canon=canon)
+    # search
+    spec_search(ctx, shim, model, ctx.rng("spec"), ctx.budget(350, 7000))
+    corpus_search(ctx, shim, ctx.rng("corpus"), ctx.budget(400, 12000))
+    shape_vs_hook(ctx, shim, ctx.rng("shapehook"), ctx.budget(150, 3000))
+    d17_probe(ctx, shim)
+    slow_probe(ctx, shim, model)
 
 
 def replay(ctx, rp):
     shim = vlib.build_harness()
+    st = rp.get("stream")
+    if st == "morx-corpus":
+        f = [x for x in corpus_fonts() if os.path.basename(x) == rp["font"]][0]
+        o = vlib.run_groups(shim, [[f"fontfile f {f}", text_req(rp["text"])]], nproc=1)[0][1]
+        print("shape():", o[:300])
+        return 0 if o.startswith("ok") else 1
+    if st == "morx-spec":
+        model = vlib.build_model()
+        a = vlib.run_lines(shim, [rp["request"]], nproc=1)[0]
+        b = vlib.run_lines(model, [rp["request"].replace("morx run", "morx spec", 1)], nproc=1)[0]
+        print("crate:", a[:300]); print("spec :", b[:300])
+        ok = a.startswith("ok") and (b == "undef" or gids_of(a.split()[3]) == gids_of(b.split()[1]))
+        return 0 if ok else 1
+    if st in ("morx-d17", "morx-shape-vs-hook"):
+        a = vlib.run_lines(shim, [rp["request"]], nproc=1)[0]
+        print("shape():", a[:300], "expected", rp.get("expected"))
+        return 0 if a.startswith("ok") and gids_of(a.split()[1]) == rp.get("expected") else 1
     if "request" in rp:
         model = vlib.build_model()
         a = canon(vlib.run_lines(shim, [rp["request"]], nproc=1)[0])
